@@ -222,6 +222,9 @@ class Controller(object):
                     # the arbiter is already going down in order to
                     # restart: make that a plain exit
                     self.arbiter._restarting = False
+                elif getattr(self.arbiter, '_stopping', False):
+                    # already on its way out
+                    pass
                 else:
                     # try again shortly
                     self.loop.call_later(0.1, self.dispatch, job)
